@@ -1477,4 +1477,70 @@ theorem history_gen_inv (c : Cfg) (hn : NodeOk c) (img : NodeImage) (hi : ImgOk 
 
 example : (runGen defaultCfg img1 {} demoOps).tracked = [] := by decide
 
+/-! ## no truncation of the recorded size (requests of 2^32 bytes and more)
+
+`node->size_` is what every later step works with: the guard bytes go to `memory + node->size_`,
+`realloc` preserves and `invalidateMemory` poisons `node->size_` bytes, the corruption check looks
+at `memory + node->size_`.  The declared type of the field is regenerated from the header. -/
+
+/-- the record's size field is declared `size_t` (64 bits on LP64) -/
+theorem size_field_is_size_t : nodeSizeFieldType = "size_t" ∧ nodeSizeFieldBits = 64 := by decide
+
+/-- storing a `size_t` request into the field loses nothing, for EVERY size -/
+theorem stored_size_exact (size : W) : storedSize size = size := by
+  unfold storedSize
+  have h : nodeSizeFieldBits = 64 := by decide
+  rw [h]; simp
+
+/-- the size-level plan of an accepted request: the recorded size is the requested size, the guard
+    bytes start right behind the caller's bytes, and the platform is asked for enough -/
+theorem alloc_plan_exact (c : Cfg) (h : NodeOk c) (size : W) (sep0 : Bool) (hacc : rejectsAlloc c size = false) :
+    ∃ p, allocPlan c size sep0 = some p ∧ p.recSize = size ∧ p.guardOff = size.toNat ∧
+      p.req = allocReq c (forcedSep c sep0) size ∧ p.guardOff + c.guard.toNat ≤ p.req.toNat := by
+  refine ⟨planOf c (forcedSep c sep0) (allocReq c (forcedSep c sep0) size) size, by simp [allocPlan, hacc], ?_, ?_, rfl, ?_⟩
+  · simp [planOf, stored_size_exact]
+  · simp [planOf, stored_size_exact]
+  · simp only [planOf, stored_size_exact]
+    exact (usable_bytes_ge_request c h size (forcedSep c sep0) hacc).1
+
+theorem realloc_plan_exact (c : Cfg) (h : NodeOk c) (size : W) (sep0 : Bool) (hacc : rejectsRealloc c size = false) :
+    ∃ p, reallocPlan c size sep0 = some p ∧ p.recSize = size ∧ p.guardOff = size.toNat ∧
+      p.req = reallocReq c (forcedSep c sep0) size ∧ p.guardOff + c.guard.toNat ≤ p.req.toNat := by
+  refine ⟨planOf c (forcedSep c sep0) (reallocReq c (forcedSep c sep0) size) size, by simp [reallocPlan, hacc], ?_, ?_, rfl, ?_⟩
+  · simp [planOf, stored_size_exact]
+  · simp [planOf, stored_size_exact]
+  · simp only [planOf, stored_size_exact]
+    rw [rejectsRealloc_eq] at hacc
+    exact (usable_bytes_ge_request c h size (forcedSep c sep0) hacc).2
+
+/-- **No truncation**: whatever the size of an accepted request — 2^32 + 16 bytes as well as 16 —
+    the byte-level model of `allocMemory` tracks the block with exactly the size the plan records,
+    which is the requested size, and its guard bytes sit at the plan's offset, right behind the
+    caller's `size` bytes. -/
+theorem recorded_size_is_request (c : Cfg) (h : NodeOk c) (img : NodeImage) (hi : ImgOk c img) (s : State) (fam : Nat)
+    (size : W) (sep0 : Bool) (id : Nat) (bytes : List UInt8) (a2 : Ans)
+    (hacc : rejectsAlloc c size = false)
+    (hlen : bytes.length = (allocReq c (forcedSep c sep0) size).toNat)
+    (h2 : forcedSep c sep0 = true → ∃ nid nb, a2 = .block nid nb ∧ nb.length = c.node.toNat ∧ nid ≠ id) :
+    ∃ p s' evs, allocPlan c size sep0 = some p ∧ p.recSize = size ∧
+      allocMemory c img s fam size sep0 (.block id bytes) a2 = (s', evs, .ptr id) ∧
+      s'.trackedSet = (id, p.recSize) :: s.trackedSet ∧
+      (∃ b', findBlock s'.mem id = some b' ∧ (b'.bytes.drop p.guardOff).take c.guard.toNat = guardImage c ∧
+        b'.bytes.take size.toNat = bytes.take size.toNat) := by
+  obtain ⟨p, hp, hrec, hg, _, _⟩ := alloc_plan_exact c h size sep0 hacc
+  obtain ⟨s', evs, he, ht, ⟨b', hb, _, htake, _, hgu⟩, _⟩ :=
+    alloc_returns_sound_block c h img hi s fam size sep0 id bytes a2 hacc hlen h2
+  exact ⟨p, s', evs, hp, hrec, he, by rw [hrec]; exact ht, b', hb, by rw [hg]; exact hgu, htake⟩
+
+-- non-vacuity: a request of 2^32 + 16 bytes is accepted, planned with its full size, and a field of
+-- 32 bits would have kept 16 of it
+example : allocPlan defaultCfg (BitVec.ofNat 64 (2^32 + 16)) true =
+    some ⟨BitVec.ofNat 64 (2^32 + 24), BitVec.ofNat 64 (2^32 + 16), 2^32 + 16, none⟩ := by decide
+example : allocPlan defaultCfg (BitVec.ofNat 64 (2^32 + 16)) false =
+    some ⟨BitVec.ofNat 64 (2^32 + 24 + 64), BitVec.ofNat 64 (2^32 + 16), 2^32 + 16, some (2^32 + 24)⟩ := by decide
+example : reallocPlan defaultCfg (BitVec.ofNat 64 (2^32 + 4096)) true =
+    some ⟨BitVec.ofNat 64 (2^32 + 4104), BitVec.ofNat 64 (2^32 + 4096), 2^32 + 4096, none⟩ := by decide
+example : rejectsAlloc defaultCfg (BitVec.ofNat 64 (2^32 + 16)) = false ∧ NodeOk defaultCfg := ⟨by decide, defaultCfg_ok⟩
+example : (((BitVec.ofNat 64 (2^32 + 16) : W).setWidth 32).setWidth 64).toNat = 16 := by decide
+
 end AllocLayout
